@@ -1,9 +1,9 @@
 (* Props/C11.v -- the property theorems of C11 (and C09_linebreak_terminates), and nothing else.
    Each is closed by [exact] of a lemma proved in C11/, and [Print Assumptions] follows.
    What is theorem: the comment re-wrapper keeps every word of a comment (with its comment kind)
-   in order, for every indent and width; at string level under [comment_safe], and the
-   unconditional string-level statement is refuted (K2); idempotence of the re-wrapper is refuted
-   (K1).  Idempotence of the whole formatter, and `parse (format t)`, are explored, not proved. *)
+   in order, for every indent and width; at string level under [comment_safe]; the
+   unconditional string-level statement and idempotence of the re-wrapper at full strength are
+   refuted (only by comments containing TABs; the K1/K2 witnesses are repaired).  Idempotence of the whole formatter, and `parse (format t)`, are explored, not proved. *)
 From C11 Require Import CommentSpec CommentProofs CommentWords LineBreak LineBreakTerm LineBreakTokens.
 
 (* The lines format_leading_comment appends ([fmt_lines], before they are rendered) carry exactly
@@ -27,24 +27,37 @@ Theorem C11_comment_words : forall alnum c indent w,
   comment_words (format_leading_comment alnum c indent w) = comment_words c.
 Proof. exact comment_words_preserved. Qed.
 
-(* Without the hypothesis the statement is false in the faithful model: known finding K2,
-   replayed on the real formatter by the harness. *)
+(* After the repair of K1/K2 (e04b99a in /repo, mirrored in CommentWrap.word_step) the former
+   witnesses are regressions: the model re-wraps them without losing a word or oscillating. *)
+Example C11_k1_k2_repaired :
+  let alnum := fun c => (97 <=? c) && (c <=? 122) in
+  let k1 := [47;47;32;97;97;97;97;32;98;98;98;98;32;99;99;99;32;32;104;116;116;112;115;58;47;47;101;120;97;109;112;108;101;46;111;114;103;47;120] in
+  let k2 := [47;47;97;32;47;98] in  (* "//a /b" *)
+  format_leading_comment alnum (format_leading_comment alnum k1 4 20) 4 20 = format_leading_comment alnum k1 4 20
+  /\ comment_words (format_leading_comment alnum k1 4 20) = comment_words k1
+  /\ comment_words (format_leading_comment alnum k2 0 4) = comment_words k2.
+Proof. vm_compute. repeat split. Qed.
+
+(* Without a hypothesis the string-level statement is still false in the faithful model: when a
+   TAB (or any whitespace other than a space) follows the slashes, Display's trim() glues the
+   word to the prefix: "//<TAB>/x" -> "///x", a doc comment (replayed on the real formatter:
+   candidate finding K9). [comment_safe] excludes it. *)
 Theorem C11_comment_words_unsafe_refuted : forall alnum, exists c indent w,
   comment_words (format_leading_comment alnum c indent w) <> comment_words c.
 Proof.
-  intros alnum. exists [47;47;97;32;47;98], 0, 4. (* "//a /b" -> "//a\n///b" *)
+  intros alnum. exists [47;47;9;47;120], 0, 100.
   vm_compute. discriminate.
 Qed.
 
-(* Idempotence of the re-wrapper at equal indent and width is false in the faithful model: known
-   finding K1 (a line that fills the width, two spaces, a word that does not fit). *)
+(* Idempotence of the re-wrapper at equal indent and width, at full strength, is still false in
+   the faithful model -- only for comments that contain whitespace other than spaces, at widths
+   where a word does not fit: "// <TAB> x" at width 3 gives "// \n// x" (a line with a trailing
+   space), then "//\n// x". *)
 Theorem C11_comment_idempotent_refuted : forall alnum, exists c indent w,
   format_leading_comment alnum (format_leading_comment alnum c indent w) indent w
   <> format_leading_comment alnum c indent w.
 Proof.
-  intros alnum.
-  (* "// aaaa bbbb ccc  https://example.org/x" at indent 4, width 20 *)
-  exists [47;47;32;97;97;97;97;32;98;98;98;98;32;99;99;99;32;32;104;116;116;112;115;58;47;47;101;120;97;109;112;108;101;46;111;114;103;47;120], 4, 20.
+  intros alnum. exists [47;47;32;9;32;120], 0, 3.
   vm_compute. discriminate.
 Qed.
 
